@@ -94,6 +94,9 @@ type TrBagWire struct {
 }
 type TrRaw struct{ B []byte }
 type TrAny struct{ V interface{} }
+type TrShape struct{ S Shape } // transform whose serial form is the keyed union
+type Disc struct{ V string }   // a union member with a transform entry of its own
+type TrPtr struct{ V string }  // transform whose serial form is a pointer (*TrWire)
 
 type Shape interface{ isShape() }
 type Circle struct{ R int64 }
@@ -104,6 +107,7 @@ type Square struct {
 
 func (Circle) isShape() {}
 func (Square) isShape() {}
+func (Disc) isShape()   {}
 
 type zooType struct {
 	id    int
@@ -131,6 +135,9 @@ var zoo = []zooType{
 	{18, reflect.TypeOf(TrBagWire{}), "(st 18)", []string{"s", "i64"}},
 	{19, reflect.TypeOf(TrRaw{}), "(st 19)", []string{"x"}},
 	{22, reflect.TypeOf(TrAny{}), "(st 22)", []string{"a"}},
+	{23, reflect.TypeOf(TrShape{}), "(st 23)", []string{"(if 30)"}},
+	{24, reflect.TypeOf(Disc{}), "(st 24)", []string{"s"}},
+	{25, reflect.TypeOf(TrPtr{}), "(st 25)", []string{"s"}},
 	{20, reflect.TypeOf(Circle{}), "(st 20)", []string{"i64"}},
 	{21, reflect.TypeOf(Square{}), "(st 21)", []string{"s", "(pt i)"}},
 	{30, reflect.TypeOf((*Shape)(nil)).Elem(), "(if 30)", nil},
@@ -727,6 +734,24 @@ func transformFuncs(kind int) (interface{}, interface{}) {
 				}
 				return TrKey{a, b}, nil
 			}
+	case 12:
+		// the serial form is a keyed union (model kind 9: struct{X} <-> X)
+		return func(x TrShape) (Shape, error) { return x.S, nil },
+			func(v Shape) (TrShape, error) { return TrShape{v}, nil }
+	case 13:
+		// a union member that is itself transformed (model kind 5: struct{V string} <-> wire struct{W string})
+		return func(x Disc) (TrWire, error) { return TrWire{x.V}, nil },
+			func(w TrWire) (Disc, error) { return Disc{w.W}, nil }
+	case 14:
+		// the serial form is a pointer to the wire struct (model kind 5: the pointer is never nil on the
+		// way out; a null on the way in leaves a struct zero and a pointer nil)
+		return func(x TrPtr) (*TrWire, error) { return &TrWire{x.V}, nil },
+			func(w *TrWire) (TrPtr, error) {
+				if w == nil { // a null: the struct machine leaves its target zero
+					return TrPtr{}, nil
+				}
+				return TrPtr{w.W}, nil
+			}
 	case 9:
 		// the serial form is an untyped value
 		return func(x TrAny) (interface{}, error) { return x.V, nil },
@@ -750,7 +775,18 @@ func (a *AD) build(all []*AD) *atlas.AtlasEntry {
 		}
 		ent.StructMap = sm
 	case "tr":
-		mf, uf := transformFuncs(a.trk)
+		gk := a.trk
+		// the same modelled pair serves several Go types: pick the Go functions by the Go type
+		if a.trk == 9 && a.t.n == 23 {
+			gk = 12
+		}
+		if a.trk == 5 && a.t.n == 24 {
+			gk = 13
+		}
+		if a.trk == 5 && a.t.n == 25 {
+			gk = 14
+		}
+		mf, uf := transformFuncs(gk)
 		ent.MarshalTransformFunc, ent.MarshalTransformTargetType = atlas.MakeMarshalTransformFunc(mf)
 		ent.UnmarshalTransformFunc, ent.UnmarshalTransformTargetType = atlas.MakeUnmarshalTransformFunc(uf)
 	case "un":
